@@ -1113,6 +1113,11 @@ def _corpus_builtin():
                                                      [["t", _f("a", ["#3", [], None])], ["t", _f("a", ["#4", [], None])]],
                                                      joins=[["inner", ["t", SQT], ["on", ["t", ["basic", "eq", _f("a", s2), _f("a", ["#3", [], None]), None]]]],
                                                             ["inner", ["q", mini("Query", T)], ["on", ["t", ["basic", "eq", _f("a", s2), _f("a", ["#4", [], None]), None]]]]]))})
+    # a WITH query that is only defined is no source: its name does not influence the numbered alias (2def80d), in either call order
+    cte = sel("Query", [["t", U]], [["t", _f("a", s0)]])
+    qw = sel("Query", [["t", T]], [["t", _f("a", s0)], ["t", _f("b", s1)]], joins=[["inner", ["t", T], on(1)]])
+    qw["with"] = [["t2", cte]]
+    out.append({"kind": "stmt", "q": sentinelise(qw)})
     # pinned shapes that must stay right
     x1, x2 = ["x", ["d", "s"], None], ["x", ["s2"], None]
     out.append({"kind": "stmt", "q": sentinelise(sel("Query", [["t", x1]], [["t", _f("a", s0)], ["t", _f("b", s1)]],
